@@ -5123,10 +5123,13 @@ class DecRule:
         if self.model is not rvar.model.top:
             raise ValueError('Models mismatch.')
 
+        num_rand = self.model.sup_model.vars[-1].last
         if self.depend is None:
-            self.depend = np.zeros((self.size,
-                                    self.model.sup_model.vars[-1].last),
-                                   dtype=int)
+            self.depend = np.zeros((self.size, num_rand), dtype=int)
+        elif self.depend.shape[1] < num_rand:
+            extra = np.zeros((self.size, num_rand - self.depend.shape[1]),
+                             dtype=int)
+            self.depend = np.hstack((self.depend, extra))
 
         indices = rvar.get_ind()
         if ldr_indices is None:
@@ -5151,9 +5154,10 @@ class DecRule:
                 num_ones = self.depend.sum()
                 var_coeff = self.model.dvar(num_ones)
                 self.var_coeff = var_coeff
-                row_ind = np.where(self.depend.flatten() == 1)[0]
-                col_ind = var_coeff.get_ind()
                 num_rand = self.model.sup_model.vars[-1].last
+                dep_rows, dep_cols = np.where(self.depend == 1)
+                row_ind = dep_rows * num_rand + dep_cols
+                col_ind = var_coeff.get_ind()
                 row = self.size * num_rand
                 col = self.model.rc_model.vars[-1].last
                 raffine_linear = csr_matrix((np.ones(num_ones),
